@@ -5,6 +5,7 @@
 # functions of /repo that no check executed.  A survey for the maintainers of the checks (where would a change go
 # unnoticed?), not a check: nothing registered in MANIFEST.json uses it.
 MV=/root/scratch/mutverif/verif
+mkdir -p /root/scratch/mutverif; exec 9>/root/scratch/mutverif/.lock; flock 9
 [ -d $MV ] || git -C /verif worktree add -q --detach $MV HEAD
 git -C $MV checkout -q -- . ; git -C $MV checkout -q --detach $(git -C /verif rev-parse HEAD)
 COV=/root/scratch/covdata; rm -rf $COV; mkdir -p $COV
